@@ -88,10 +88,19 @@ Definition max_coeff (l : list Q) : option Q :=
   | x :: r => Some (fold_left (fun m y => if Qltb m y then y else m) r x)
   end.
 
-Definition max_normalise (l : list Q) : option (list Q) :=
+(* before 6fbb30b (F43):  X.array() /= X.maxCoeff();  unconditionally — constant (zero after
+   centring) data divides 0 by 0 *)
+Definition max_normalise_shipped (l : list Q) : option (list Q) :=
   match max_coeff l with
   | None => None
   | Some mx => Some (map (fun x => x / mx) l)
+  end.
+
+(* current:  const ScalarType max_X = X.maxCoeff(); if (max_X > 0) X.array() /= max_X; *)
+Definition max_normalise (l : list Q) : option (list Q) :=
+  match max_coeff l with
+  | None => None
+  | Some mx => if Qltb 0 mx then Some (map (fun x => x / mx) l) else Some l
   end.
 
 (* ====================================================================== *)
